@@ -1685,3 +1685,15 @@ Lemma nonvacuous_c05 :
   last (outa _ _ y2) R_OK = RArr [RInt 1; WRONGTYPE; RSimple (str "OK")] /\
   value_of (sst _ _ y2) (str "j") = Some (VStr (str "1")).
 Proof. cbv zeta. repeat split; vm_compute; reflexivity. Qed.
+
+Lemma first_watch_decides_c05 :
+  let A (l : list string) := (true, frame (map str l)) in
+  let B (l : list string) := (false, frame (map str l)) in
+  let tail := [A ["MULTI"]; A ["SET"; "j"; "1"]; A ["EXEC"]]%string in
+  let y1 := mrun2 (msys_init []) (app [B ["SET"; "k"; "a"]; A ["WATCH"; "k"]; B ["SET"; "k"; "b"]; A ["WATCH"; "k"]]%string tail) in
+  let y2 := mrun2 (msys_init []) (app [B ["SET"; "k"; "a"]; A ["WATCH"; "k"]; B ["SET"; "k"; "b"]; A ["WATCH"; "h"; "k"; "k"]]%string tail) in
+  let y3 := mrun2 (msys_init []) (app [B ["SET"; "k"; "a"]; A ["WATCH"; "k"]; A ["UNWATCH"]; B ["SET"; "k"; "b"]; A ["WATCH"; "k"]]%string tail) in
+  last (outa _ _ y1) R_OK = RNilArr /\ value_of (sst _ _ y1) (str "j") = None /\
+  last (outa _ _ y2) R_OK = RNilArr /\ value_of (sst _ _ y2) (str "j") = None /\
+  last (outa _ _ y3) R_OK = RArr [RSimple (str "OK")] /\ value_of (sst _ _ y3) (str "j") = Some (VStr (str "1")).
+Proof. cbv zeta. repeat split; vm_compute; reflexivity. Qed.
